@@ -80,6 +80,33 @@ def run(rep, tier, seed, budget):
             res.col.error("vacuous differential: on most paths both decoder calls raise an exception other than DecoderError (C08's subject); the comparison says nothing")
         rep.add_part(name, res, {"alphabet": A13, "N_symbols": n, "table": "keys C,? free in 0..9"})
 
+    # [nop] where index symbols are read at the very end of a fragment: a 20-atom chain (so that two- and three-symbol indices
+    # matter), a ring / branch symbol asking for 1-3 index symbols, three free symbols among index symbols and [nop], then the
+    # end of the string or of the fragment
+    HEADS = ["[Ring2]", "[Ring3]", "[Branch2]", "[=Ring1]", "[Branch3]"]
+    TAILS = ["[Ring1]", "[C]", "[=N]", "[nop]", "[P]"]
+
+    def tail_path(eng, col):
+        ctx.reset()
+        head = make_tokens("h", 1, HEADS)[0]
+        tail = make_tokens("i", 3, TAILS)
+        more = bool(fresh_bool("another_fragment"))
+        toks = ["[C]"] * 20 + [head] + tail + ([".", "[O]", "[nop]"] if more else [])
+        a = bool(fresh_bool("attribute"))
+        r1 = _norm(dech.run_decoder(ctx, TokStr(toks), attribute=a))
+        ctx.reset()
+        r2 = _norm(dech.run_decoder(ctx, TokStrNoNop(toks), attribute=a))
+        m = eng.current_model()
+        x = dech.concrete_selfies(m, toks)
+        col.nontrivial((str(r1[1:])[:120],))
+        col.sample({"tail": x[60:], "result": str(r1)[:100]})
+        if r1 != r2:
+            col.candidate({"prop": "C13", "kind": "nop_invisible", "selfies": x, "table": None, "attribute": a, "compatible": False})
+
+    res = driver.explore_parallel(tail_path, 40)
+    rep.add_part("differential: 20-atom chain + ring/branch symbol + 3 free symbols among index symbols and [nop] at the end of the string / fragment", res,
+                 {"chain": 20, "head": HEADS, "tail": "3 symbols over %s" % TAILS, "then": ["end of string", ".[O][nop]"], "attribute": "free", "table": "default"})
+
     # padding clause: selfies_to_encoding / encoding_to_selfies / decoder, pad length symbolic
     XS = ["[C][Branch1][C][O][N]", "[C][C][C][Ring1][Ring1]", "[C].[N][=O]", "[C][=Branch1][Ring1]", "", "[F]"]
 
